@@ -56,7 +56,7 @@ MANIFEST = dict(
          'format_float prints "-0" on the carved-out class (suite pins it); a "-0" outside that class has its own key.',
 )
 
-IMPORTS = ['Coq.ZArith.ZArith', 'Coq.NArith.NArith', 'Coq.Lists.List', 'Coq.Strings.String', 'SV.Num.Mod360', 'SV.Num.AngleSites', 'SV.Num.AngleCtor', 'SV.Num.SpecStrip',
+IMPORTS = ['Coq.ZArith.ZArith', 'Coq.NArith.NArith', 'Coq.Lists.List', 'Coq.Strings.String', 'SV.Num.Mod360', 'SV.Num.AngleSites', 'SV.Num.AngleCtor', 'SV.Num.SpecStrip', 'SV.Num.C05Whole',
            'SV.Num.Dec6', 'SV.Num.Dec6CarveProofs', 'SV.Num.VecText', 'SV.SM.FrozenOps', 'SV.SM.FrozenCopy', 'SV.SM.FrozenCopyValue', 'SV.SM.FrozenHash',
            'SV.Gen.AngleSites_gen']
 PRE = '''Import ListNotations.
@@ -642,7 +642,8 @@ def gen_op(rng: random.Random, regs: list) -> tuple:
              'binop_scalar', 'binop_vec', 'rbinop_scalar', 'neg', 'abs', 'norm', 'cross', 'vec_to_angle', 'matmul', 'tuple_matmul',
              'iop_scalar', 'iop_vec', 'imatmul', 'set_attr', 'set_item', 'vec_minmax', 'vec_localise', 'vec_rotate', 'transform',
              'ang_mul', 'ang_rmul', 'ang_imul', 'mat_to_angle', 'mat_transpose', 'mat_inverse', 'mat_setitem', 'str', 'hash', 'eq', 'iter_ctor',
-             'bbox', 'with_axes', 'divmod', 'round', 'ctor_cross', 'new_kw', 'set_key']
+             'bbox', 'with_axes', 'divmod', 'round', 'ctor_cross', 'new_kw', 'set_key', 'vec_to_angle_roll', 'vec_rotation_around',
+             'vec_rotate_by_str', 'vec_clamped', 'vec_lerp', 'mat_from_angstr', 'to_matrix', 'vec_reads']
     name = rng.choice(names)
     a = rng.randrange(len(regs)) if regs else None
     b = rng.randrange(len(regs)) if regs else None
@@ -696,6 +697,36 @@ def apply_op(op: tuple, regs: list):
     if name == 'ctor_frozen':
         cls = FrozenVec if isvec(A) else FrozenAngle if isang(A) else FrozenMatrix
         return ('__new__', None, [a], [cls(A)])
+    if name == 'vec_to_angle_roll':
+        if not isvec(A) or not isvec(B): return None
+        return ('to_angle_roll', a, [b], [A.norm().to_angle_roll(A.norm().cross((0.0, 0.0, 1.0) if abs(A.norm().z) < 0.9 else (1.0, 0.0, 0.0)).norm())])
+    if name == 'vec_rotation_around':
+        if not isvec(A): return None
+        return ('rotation_around', a, [], [type(A)(*[(x if i == k % 3 else 0.0) for i in range(3)]).rotation_around(y)])
+    if name == 'vec_rotate_by_str':
+        if not isvec(A) or not hasattr(A, 'rotate_by_str'): return None
+        T = A.rotate_by_str(f'{x!r} {y!r} {z!r}')
+        return ('rotate_by_str', a, [], [] if T is A else [T])
+    if name == 'vec_clamped':
+        if not isvec(A) or not isvec(B): return None
+        return ('clamped', a, [b], [A.clamped(mins=B) if k & 1 else A.clamped(B, B + (1.0, 1.0, 1.0))])
+    if name == 'vec_lerp':
+        if not isvec(A) or not isvec(B): return None
+        return ('lerp', None, [a, b], [type(A).lerp(0.25, 0.0, 1.0, A, B)])
+    if name == 'mat_from_angstr':
+        M_ = (Matrix, FrozenMatrix)[k & 1]
+        if A is not None and isang(A) and k & 2:
+            return ('from_angstr', None, [a], [M_.from_angstr(A)])
+        return new(M_.from_angstr(f'{x!r} {y!r} {z!r}'))
+    if name == 'to_matrix':
+        from srctools.math import to_matrix
+        return ('to_matrix', None, [a], [to_matrix(A)])
+    if name == 'vec_reads':
+        if not isvec(A): return None
+        A.len_sq(); A.mag(); A.other_axes('xyz'[k % 3]); A.in_bbox(A, A); A.dot(A); A.as_tuple()
+        if sum(1 for c in A if c) == 1: A.axis()
+        if finite_small(A): list(A.iter_line(A + (0.0, 0.0, 8.0), 4))
+        return ('<reads>', a, [], [])
     if name == 'ctor_cross':          # an angle from a vector object, a vector from an angle object (and the same family)
         if ismat(A): return None
         return ('__init__', None, [a], [(Vec, FrozenVec, Angle, FrozenAngle)[k](A)])
@@ -853,6 +884,10 @@ COPY_OPS = {'copy', 'copy_copy', 'deepcopy', 'pickle', 'freeze', 'thaw', 'ctor_s
 SHAPE_OPS = {'copy', 'copy_copy', 'deepcopy', 'pickle', 'freeze', 'thaw'}       # the methods of Gen copy_shapes
 
 
+def finite_small(o) -> bool:
+    return all(abs(getattr(o, sl)) < 1e6 for sl in slots_of(o))
+
+
 def finite_obj(o) -> bool:
     return all(isinstance(getattr(o, s, None), float) and math.isfinite(getattr(o, s)) for s in slots_of(o))
 
@@ -952,7 +987,7 @@ def run_history(hist: list[tuple]):
     return r.problems, r.frames, r.regs
 
 
-TO_ANGLE_OPS = {'mat_to_angle', 'ang_from_basis', 'matmul', 'imatmul', 'transform', 'tuple_matmul', 'vec_to_angle'}
+TO_ANGLE_OPS = {'mat_to_angle', 'ang_from_basis', 'matmul', 'imatmul', 'transform', 'tuple_matmul', 'vec_to_angle', 'vec_to_angle_roll'}
 
 
 def classify_range(opname: str, meth) -> str:
@@ -1150,7 +1185,7 @@ def search_to_angle(ck: Ck) -> None:
         rng = ck.rng
         v = [rnd_val(rng), rnd_val(rng), rnd_val(rng)]
         route = rng.choice(['from_yaw', 'from_pitch', 'from_roll', 'from_angle', 'angle_matmul', 'angle_imatmul', 'transform', 'from_basis', 'rmatmul',
-                            'axis_angle', 'vec_to_angle'])
+                            'axis_angle', 'vec_to_angle', 'to_angle_roll', 'rotation_around', 'from_angstr', 'to_matrix_angle'])
         if too_many_hangs():
             break
         try:
@@ -1171,6 +1206,19 @@ def search_to_angle(ck: Ck) -> None:
                 a = FrozenAngle.from_basis(x=m.forward(), y=m.left())
             elif route == 'rmatmul': a = Angle(0, 0, 0) @ FrozenMatrix.from_yaw(v[0])
             elif route == 'axis_angle': a = Matrix.axis_angle(Vec(0, 0, 1), v[0]).to_angle()
+            elif route == 'to_angle_roll':
+                m = Matrix.from_yaw(v[0])
+                with warnings.catch_warnings():
+                    warnings.simplefilter('ignore')
+                    a = m.forward().to_angle_roll(m.up())
+            elif route == 'rotation_around':
+                with warnings.catch_warnings():
+                    warnings.simplefilter('ignore')
+                    a = Vec(*[(1.0 if j == i % 3 else 0.0) for j in range(3)]).rotation_around(v[0])
+            elif route == 'from_angstr': a = FrozenMatrix.from_angstr(f'{v[0]!r} {v[1]!r} {v[2]!r}').to_angle()
+            elif route == 'to_matrix_angle':
+                from srctools.math import to_matrix
+                a = to_matrix(FrozenAngle(*v)).to_angle()
             else: a = Vec(1.0, math.sin(math.radians(v[0])), 0.0).to_angle(v[1])
         except ImplTimeout:
             found.setdefault(f'implementation-hangs-in-{route}', (route, v, ('did not return within the CPU time limit',)))
@@ -1188,8 +1236,12 @@ def search_to_angle(ck: Ck) -> None:
             found.setdefault('angle-slot-missing-after-to_angle', (route, v, tuple(missing_slots(a))))
             continue
         vals = (a.pitch, a.yaw, a.roll)
+        if not all(type(x) is float and math.isfinite(x) for x in vals):
+            # the operands of % in _to_angle are degrees(atan2(...)): finite (|x| <= 180) for every finite rotation
+            found.setdefault(f'angle-not-finite-after-{route}', (route, v, vals))
+            continue
         if all(math.isfinite(x) for x in vals) and not all(0.0 <= x < 360.0 for x in vals):
-            key = 'angle-360-from-matrix-to-angle' if route != 'vec_to_angle' else 'angle-out-of-range-after-vec_to_angle'
+            key = 'angle-360-from-matrix-to-angle' if route not in ('vec_to_angle', 'rotation_around') else f'angle-out-of-range-after-{route}'
             if key not in found:
                 found[key] = (route, v, vals)
     for key, (route, v, vals) in found.items():
@@ -1698,7 +1750,7 @@ def theorems_with_axioms(ck: Ck, props_file: str = 'Props/C05.v'):
 # statements of Props/C05.v that go through Flocq's real-number layer (the four classical axioms of Coq's Reals); every other
 # statement is expected to be closed under the global context.  Only a hint for the fast path below: if it is wrong in
 # either direction the per-statement pass runs and reports what Print Assumptions really says.
-REALS_THEOREMS = {'c05_ctor_range', 'c05_ctor_vec_copy_refuted', 'c05_norm360_range', 'c05_single_mod_closed', 'c05_single_mod_refuted', 'c05_angle_range_invariant', 'c05_single_site_refuted',
+REALS_THEOREMS = {'c05_property', 'c05_ctor_range', 'c05_ctor_vec_copy_refuted', 'c05_norm360_range', 'c05_single_mod_closed', 'c05_single_mod_refuted', 'c05_angle_range_invariant', 'c05_single_site_refuted',
                   'c05_double360_id', 'c05_double360_idempotent', 'c05_double360_of_360', 'c05_within_5e7_R', 'c05_float_parse_error',
                   'c05_float_parse_exact', 'c05_copy_value_equal_angles', 'c05_double360_sub', 'c05_angle_component_roundtrip',
                   'c05_angle_text_roundtrip', 'c05_vec_text_roundtrip'}
@@ -1853,6 +1905,10 @@ def run(ck: Ck) -> None:
             'census_fresh_by_name_justified': 'fresh_names_ok fresh_by_name',
             'hash_is_a_function_of_all_slots_of_a_frozen_value': 'hash_table_ok hash_kinds',
             'no_inplace_operator_on_a_class_of_frozen_objects': 'inplace_ok inplace_rows',
+            'whole_property_hypotheses_hold': 'c05_source_ok {| s_sites := angle_sites; s_creations := angle_creations; s_ctors := angle_ctors; '
+                                              's_ctor_rows := angle_ctor_rows; s_events := mut_events; s_results := result_kinds; s_shapes := copy_shapes; '
+                                              's_hash := hash_kinds; s_inplace := inplace_rows; s_fmt := format_float_cfg; s_parse := parse_vec_cfg; '
+                                              's_vspec := vec_spec_cfg; s_aspec := angle_spec_cfg |}',
             'no_write_through_unknown_or_aliased_object': 'forallb (fun e : mut_event => match snd (fst e) with Unknown | MaybeAlias | Param => helper (snd (fst (fst e))) | _ => true end) mut_events',
         })
         if not all(res.values()):      # a premise of the theorems no longer holds for today's source: escalate the search
@@ -1956,6 +2012,14 @@ def explain_failures(ck: Ck) -> None:
         ck.explain('instance:copy_')
         ck.explain('correspondence:results')
         ck.explain('correspondence:copy_shapes')
+    if any(k.startswith(('frozen-hash-differs', 'frozen-class-unhashable', 'mutable-class-hashable')) or k.endswith('-changed-by-reading') for k in keys):
+        ck.explain('instance:hash_is_a_function_of_all_slots_of_a_frozen_value')
+    if any('-by-inplace-' in k or k.startswith(('frozen-', 'non-receiver-')) for k in keys):
+        ck.explain('instance:no_inplace_operator_on_a_class_of_frozen_objects')
+    # the conjunction of all hypotheses is explained when each conjunct that failed is
+    conj = [o for o in ck.obligations if o['name'].startswith('instance:') and not o['ok'] and o['name'] != 'instance:whole_property_hypotheses_hold']
+    if conj and all(o.get('explained') for o in conj):
+        ck.explain('instance:whole_property_hypotheses_hold')
 
 
 def replay(data: dict) -> int:
